@@ -412,33 +412,32 @@ def spec_decode(b):
     return "reject"
 
 
+def _parse_res(f, b):
+    """'reject' (an exception), ('pt', coordinates) or — never acceptable — ('returned', what) when the call returns
+    something that is not a point instead of raising"""
+    try:
+        pt = f(b)
+    except Exception:  # noqa
+        return "reject"
+    if not isinstance(pt, S256Point):
+        return ("returned", repr(pt)[:40])
+    return ("pt", _tup(pt))
+
+
 def p_parse(b):
     """S256Point.parse / parse_sec / parse_xonly accept exactly the encodings of curve points"""
     want = spec_decode(b)
-    try:
-        got = ("pt", _tup(S256Point.parse(b)))
-    except Exception:  # noqa
-        got = "reject"
+    got = _parse_res(S256Point.parse, b)
     if got != want:
         return f"parse: got {got}, a strict decoder gives {want}"
+    got = _parse_res(S256Point.parse_sec, b)
     if len(b) in (33, 65):
-        try:
-            got = ("pt", _tup(S256Point.parse_sec(b)))
-        except Exception:  # noqa
-            got = "reject"
         if got != want:
             return f"parse_sec: got {got}, a strict decoder gives {want}"
-    else:
-        try:
-            S256Point.parse_sec(b)
-            return f"parse_sec accepts a {len(b)}-byte string"
-        except Exception:  # noqa
-            pass
+    elif got != "reject":
+        return f"parse_sec on a {len(b)}-byte string: {got}"
     if len(b) == 32:
-        try:
-            got = ("pt", _tup(S256Point.parse_xonly(b)))
-        except Exception:  # noqa
-            got = "reject"
+        got = _parse_res(S256Point.parse_xonly, b)
         if got != want:
             return f"parse_xonly: got {got}, a strict decoder gives {want}"
     return None
